@@ -174,8 +174,12 @@ func runC14(c *RunCtx) {
 		case k == 5 && t.Chance(1, 30):
 			// large inputs: services that treat big buffers differently (block-wise paths)
 			sizes := []int{70_000, 262_144, 262_145, 300_000}
-			if c.Thorough {
-				sizes = append(sizes, 1<<20)
+			if t.Intn(5) == 0 {
+				// around and above 1 MiB (seeded change C14-x: inputs over 1 MiB fed block-wise)
+				sizes = []int{1 << 20, 1<<20 + 1, 1_500_000}
+				if c.Thorough {
+					sizes = append(sizes, 2<<20+5, 4<<20+1)
+				}
 			}
 			n := sizes[t.Intn(len(sizes))]
 			d = noise(t, n)
@@ -202,6 +206,8 @@ func runC14(c *RunCtx) {
 			op.data, op.desc = genData()
 			if jumbo || len(op.data) > 4<<20 {
 				op.algo = 2 + t.Intn(2) // byte-sum services only: the bitwise CRC-16 over tens of MB is minutes under the race detector
+			} else if len(op.data) > 1<<19 && op.algo == 0 && t.Intn(4) != 0 {
+				op.algo = 1 // megabyte inputs: mostly CRC32 instead of the (slow, bit-by-bit) CRC16
 			}
 			op.lead = []int{0, 0, 1, 5, 64, 300}[t.Intn(6)]
 			op.slack = []int{0, 1, 64, 4096}[t.Intn(4)]
